@@ -340,6 +340,11 @@ def run(ctx, rule, qual):
     if k_trig is not None:
         _deflated(ctx, rule, sv, I, Ev, k_trig)
     _spherical(ctx, rule, sv)
+    from . import C12_pivot
+    try:
+        C12_pivot.run(ctx, rule, sv)
+    except (EvalError, Raised, KeyError, IndexError, TypeError, AttributeError, ZeroDivisionError, RecursionError, ValueError) as ex:
+        ctx.undecided(rule, nu, None, construct="pivot-row", detail=f"the row pivoting could not be read: {type(ex).__name__}: {ex}")
 
 
 def _fn_atoms(I, name):
